@@ -26,10 +26,10 @@ def register(reg):
           "C01.result-satisfies-constraints": "result is None or accepts(self, result)",
           "C11.required-has-value": "implies(self.required and not truthy(self.validator), result is not None or not persistent(self))",
           "C05.none-passes": "implies(value is None, result is None)",
-          "C06+C13.only-container-and-challenge-fields-touch-key-material": PLAIN_FRAME,
+          "C13.only-container-and-challenge-fields-touch-key-material": PLAIN_FRAME,
       },
       raises={"C05.none-rejected-only-if-required": "implies(value is None, self.required)",
-              "C06+C13.only-container-and-challenge-fields-touch-key-material": PLAIN_FRAME,
+              "C13.only-container-and-challenge-fields-touch-key-material": PLAIN_FRAME,
               "C05.plain-field-accepts-all": "not (exact_class(self, 'Field', 'AnyField') and not self.required and not truthy(self.validator))"},
       defs={"accepts": (["f", "r"], "accepts_type(f, r) or truthy(f.validator)")})
     C("core:Field.__setval__", virtual=True, params={"cfg": "ref:Config", "value": "any"},
@@ -165,10 +165,10 @@ def register_field_base(reg):
           "C01.type-level-constraints": "accepts_type(self, result)",
           "C11.validated-not-none": "result is not None",
           "C11.required-nonempty": "implies(self.required and typeis(self, 'ref:StringField|ref:ListField|ref:DictField'), truthy(result))",
-          "C06+C13.only-container-and-challenge-fields-touch-key-material": PLAIN_FRAME,
+          "C13.only-container-and-challenge-fields-touch-key-material": PLAIN_FRAME,
       },
       raises={"C05.base-never-rejects": "not exact_class(self, 'Field', 'AnyField')",
-              "C06+C13.only-container-and-challenge-fields-touch-key-material": PLAIN_FRAME},
+              "C13.only-container-and-challenge-fields-touch-key-material": PLAIN_FRAME},
       defs={"accepts_type": (["f", "r"], "True")})
     C("core:Field.default", params={}, returns="any", modifies=["fresh", "ncalls"],
       assumes={"A.default-is-not-a-schema": "not typeis(self._default, 'ref:BaseField')"},
